@@ -761,7 +761,7 @@ def jobs_for(variant, kindsets, depth):
     return jobs
 
 
-def run(ctx):
+def _run_histories(ctx):
     from vf.runner import shuffled
     H.provision()
     H.peer_material()
@@ -837,7 +837,153 @@ def run(ctx):
                "instance methods are wrapped by counters (collaborators, not code under test)")
 
 
+# --------------------------------------------------------------------------- interleavings (E3)
+# "For any interleaving of outstanding requests and incoming replies": the application thread issues requests through
+# the interface layer's _sendIq while the network thread hands the replies up.  Real network/segments/noise/coder/
+# protocol layers + an application subclass of YowInterfaceLayer under the controlled scheduler; the server answers
+# every request the moment it decodes it.  Oracle: every request's callback exactly once, no registry entry left.
+IL_MOD = "vf.props.c08_iq_correlation"
+
+
+def run_interleaving(case, prefix):
+    from vf.harness import noise as HN
+    from vf.explore import sched as S
+    from yowsup.layers.interface.interface import YowInterfaceLayer
+    from yowsup.layers.protocol_iq.protocolentities import PingIqProtocolEntity
+    from yowsup.layers.protocol_presence.protocolentities import LastseenIqProtocolEntity
+    from yowsup.structs.protocoltreenode import ProtocolTreeNode
+
+    class IApp(YowInterfaceLayer):
+        def __init__(self):
+            YowInterfaceLayer.__init__(self)
+            self.received = []
+            self.events = []
+
+        def receive(self, entity):
+            self.received.append(entity)
+            YowInterfaceLayer.receive(self, entity)
+
+        def onEvent(self, ev):
+            self.events.append(ev.getName())
+            return YowInterfaceLayer.onEvent(self, ev)
+
+    kinds = case["kinds"]
+    reply = case.get("reply", "result")
+    w = HN.World(variant="IK", burst=0, with_success=True, app_cls=IApp)
+    sc = S.Scheduler(prefix, trace_filter=HN.trace_filter, line_filter=HN.line_filter if case.get("lines") else None)
+    calls = []
+    answered = set()
+    orig = w.on_client_bytes
+
+    def on_client_bytes(disp, data):
+        orig(disp, data)
+        i = disp.index
+        r = w.responders[i]
+        if r.phase != "transport":
+            return
+        # answer every request that has been completely received, at once
+        for fr in r.received:
+            try:
+                n = w.reader.getProtocolTreeNode(bytearray(fr))
+            except Exception:
+                continue
+            if n is not None and n.tag == "iq" and n["type"] in ("get", "set") and n["id"] not in answered:
+                answered.add(n["id"])
+                if reply == "result":
+                    if n["xmlns"] == "jabber:iq:last":
+                        rn = ProtocolTreeNode("iq", {"type": "result", "id": n["id"], "from": n["to"] or "s.whatsapp.net"},
+                                              [ProtocolTreeNode("query", {"seconds": "5"})])
+                    else:
+                        rn = ProtocolTreeNode("iq", {"type": "result", "id": n["id"], "from": "s.whatsapp.net"})
+                else:
+                    rn = ProtocolTreeNode("iq", {"type": "error", "id": n["id"], "from": "s.whatsapp.net"},
+                                          [ProtocolTreeNode("error", {"code": "500", "text": "internal-server-error"})])
+                w.server_send(i, rn)
+    w.on_client_bytes = on_client_bytes
+
+    def net():
+        w.connect()
+        w.dispatchers[0].fire_connected()
+        while True:
+            sc.wait_until(lambda: len(w.server_out[0]) > 0, "server bytes")
+            w.deliver(0, len(w.server_out[0]))
+
+    sc.run_phase([("net", net)], timeout=900.0)
+    setup_points = len(sc.points)
+    ok = w.state() == "transport" and w.responders[0].phase == "transport"
+    ids = []
+
+    def app():
+        for k in kinds:
+            ent = PingIqProtocolEntity() if k == "ping" else LastseenIqProtocolEntity("4922@s.whatsapp.net")
+            ids.append((k, ent.getId()))
+            w.app._sendIq(ent, lambda res, req, k=k: calls.append((k, "success", req is not None)),
+                          lambda res, req, k=k: calls.append((k, "error", req is not None)))
+    error = None
+    if ok:
+        try:
+            sc.run_phase([("app", app)], timeout=900.0)
+        except (S.HarnessStuck, S.ReplayDivergence) as e:
+            error = e
+    blocked = [(t.name, t.wait_desc) for t in sc.blocked()]
+    pts = [(1, 0, ce) if i < setup_points else (n, c, ce) for i, (n, c, ce) in enumerate(S.summarize_points(sc))]
+    log = list(sc.log)
+    sc.shutdown()
+    if error is not None:
+        raise error
+    v = []
+
+    def bad(sig, what, detail=None):
+        v.append(("C08:interleaving:" + sig, what, dict(case), detail))
+    if not ok:
+        bad("setup-failed", "login did not complete")
+        return pts, v, ("setup",)
+    for ent in log:
+        if ent[0] == "thread-exception":
+            bad("thread-exception:%s" % ent[2], "exception escaped in thread %s: %s %s" % (ent[1], ent[2], ent[3]))
+    want = "success" if reply == "result" else "error"
+    for k, rid in ids:
+        n = sum(1 for c in calls if c[0] == k and c[1] == want)
+        other = sum(1 for c in calls if c[0] == k and c[1] != want)
+        if n != 1 or other:
+            bad("%s:%s-callback-count" % (k, want), "request %s got %d %s callbacks and %d of the other kind (expected exactly one)" % (k, n, want, other),
+                {"calls": calls, "registry": list(w.app.iqRegistry)})
+    if w.app.iqRegistry:
+        bad("registry-leak:App", "application registry still holds %s after every request was answered" % list(w.app.iqRegistry))
+    for lay in w.par.sublayers:
+        if getattr(lay, "iqRegistry", None):
+            bad("registry-leak:%s" % type(lay).__name__, "layer registry still holds %s" % list(lay.iqRegistry))
+    if [b for b in blocked if b[0] not in ("net",)]:
+        bad("deadlock", "threads left blocked: %s" % blocked)
+    obs = (tuple(calls), tuple(sorted(b[0] for b in blocked)))
+    return pts, v, obs
+
+
+def run(ctx):
+    _run_histories(ctx)
+    from vf.explore import dfs
+    cases = [{"kinds": ["ping"], "reply": "result"}, {"kinds": ["lastseen"], "reply": "result"},
+             {"kinds": ["ping"], "reply": "error"}, {"kinds": ["lastseen", "ping"], "reply": "result"}]
+    if not ctx.quick:
+        cases += [{"kinds": ["lastseen"], "reply": "error"}, {"kinds": ["ping", "ping", "lastseen"], "reply": "result"},
+                  {"kinds": ["ping"], "reply": "result", "lines": True}, {"kinds": ["lastseen"], "reply": "error", "lines": True}]
+    bound = 1 if ctx.quick else 2
+    st = dfs.explore(ctx, IL_MOD, "run_interleaving", cases, bound, cap=200000 if ctx.quick else 2000000, chunksize=4, free_bound=2)
+    ctx.note("interleavings: preemption bound %d: executions=%d capped=%s" % (bound, st.executions, st.capped))
+    ctx.coverage["interleaving_executions"] = st.executions
+    ctx.coverage["interleaving_preemption_bound"] = bound
+    ctx.coverage["traces_validated_against_impl"] = ctx.coverage.get("traces_validated_against_impl", 0) + st.executions
+    if st.capped:
+        ctx.coverage["exhaustive"] = False
+
+
 def replay(ctx, case):
+    if "kinds" in case and "history" not in case:
+        from vf.explore import dfs
+        case = dict(case)
+        pf = dfs.schedule_from_case(case)
+        case.pop("schedule", None)
+        return run_interleaving(case, pf)[1]
     H.provision()
     w = build_world(case["variant"], [tuple(e) for e in case["history"]])
     out = []
